@@ -164,11 +164,37 @@ class Wmnsk(Stream):
         return cs
 
 
+class Concurrent(Stream):
+    """key derivations for 8 UEs at once give what they give one at a time (every function of the chain is specified per call)"""
+    name = "concurrent"
+    sub = "conc"
+    model_check = None
+    spec_check = None
+    requires = []
+
+    def generate(self, rng, tier):
+        return [{"family": "key_derive", "goroutines": 8, "iters": 400 if tier == "quick" else 8000}]
+
+    def classify(self, c, o):
+        return "same" if o.get("different") == 0 else "different"
+
+    def key(self, c, o):
+        return "key-derive-conc"
+
+    def coq_case(self, c, o):
+        return ""
+
+    def direct_check(self, c, o):
+        if o.get("different", 1) != 0 or "harness_error" in o or "panic" in o:
+            return "concurrent derivations for different UEs change the results: %s" % (o.get("first") or o)
+        return None
+
+
 class C05(Check):
     pid = "C05"
     prop_files = ["Properties/C05.v"]
     extra_targets = ["Model/RanUeCases.vo"]
-    streams = [Derive(), DeriveOut(), Wmnsk()]
+    streams = [Derive(), DeriveOut(), Wmnsk(), Concurrent()]
     trusted = ["Coq 8.16.1 kernel incl. vm_compute (no native_compute)", "no axioms (Print Assumptions: closed under the global context)",
                "hand-written models Model/RanUe.v, Model/Kdf.v, Model/WmnskMilenage.v tied by the correspondence streams derive, derive-out, wmnsk",
                "Crypto/AES.v and Crypto/SHA256.v (FIPS-197 / FIPS-180-4 / RFC 2104; standard vectors as Examples) stand for Go crypto/aes, crypto/hmac, "
